@@ -10,6 +10,7 @@ import PPV.Model.OptionsRun
 import PPV.Model.NewtonRun
 import PPV.Model.ConnectivityRun
 import PPV.Model.FixedNode
+import PPV.Model.GroupSum
 
 open PPV
 
@@ -39,6 +40,17 @@ def handle (line : String) : String :=
         | _ => ((0 : Rat), 0)
     let r := PPV.Model.FixedNode.setEntries (α := Rat) ⟨PPV.Model.Newton.Run.parseRat v0, 0⟩ groups
     s!"{PPV.Model.Newton.Run.showRat r.value} {r.count}"
+  | "groupsum" :: _ =>
+    -- `groupsum :: idx… :: vals…` (integers) → `key:sum …` three times must coincide: spec, bucket, numpy variant
+    let parts := line.trimAscii.toString.splitOn "::"
+    let idx := (PPV.Model.Newton.Run.toks (parts.getD 1 "")).map (fun t => t.toNat!)
+    let vals := (PPV.Model.Newton.Run.toks (parts.getD 2 "")).map (fun t => t.toInt!)
+    let pairs := idx.zip vals
+    let sh := fun (l : List (Nat × Int)) => " ".intercalate (l.map fun p => s!"{p.1}:{p.2}")
+    let a := sh (PPV.Model.GroupSum.groupSpec pairs)
+    let b := sh (PPV.Model.GroupSum.groupBucket pairs)
+    let c := sh (PPV.Model.GroupSum.groupNp pairs)
+    if a == b && b == c then a else s!"MODEL-VARIANTS-DIFFER spec[{a}] bucket[{b}] np[{c}]"
   | _ => "bad-op"
 
 partial def loop (h : IO.FS.Stream) (out : IO.FS.Stream) : IO Unit := do
